@@ -232,6 +232,11 @@ func (r *rangeCtx) isStart(f *core.Func, e ast.Expr, depth int) bool {
 			for fn := f; fn != nil; fn = fn.Parent {
 				for _, gs := range r.growSitesOf(fn) {
 					if gs.pos > x.Pos() && r.sameTable(fn, gs.dst, t) {
+						// a length read in one loop and a growth in a later loop are separated by the other iterations:
+						// an earlier iteration of the growing loop may have grown the same table in between
+						if rl := enclosingLoopOf(fn, x); rl != nil && !(rl.Pos() <= gs.pos && gs.pos < rl.End()) {
+							continue
+						}
 						return true
 					}
 				}
@@ -239,7 +244,34 @@ func (r *rangeCtx) isStart(f *core.Func, e ast.Expr, depth int) bool {
 		}
 		if sel, ok := x.(*ast.SelectorExpr); ok {
 			if k := fieldKeyOf(m, sel); k != "" && r.startField[k] {
-				return true
+				// a record field that carries start values somewhere in the package; if this very function assigns it,
+				// what it assigns here must be a start value too (a length read after the move is not)
+				local, allStart := 0, true
+				for fn := f; fn != nil; fn = fn.Parent {
+					core.InspectNoLits(fn.Body, func(n ast.Node) bool {
+						if as, ok := n.(*ast.AssignStmt); ok && len(as.Lhs) == len(as.Rhs) {
+							for i, l := range as.Lhs {
+								if fieldKeyOf(m, l) == k {
+									local++
+									if !r.isStart(fn, as.Rhs[i], depth+1) {
+										allStart = false
+									}
+								}
+							}
+						}
+						// the field initialised in a literal of the record
+						if kv, ok := n.(*ast.KeyValueExpr); ok && litFieldKey(m, kv) == k {
+							local++
+							if !r.isStart(fn, kv.Value, depth+1) {
+								allStart = false
+							}
+						}
+						return true
+					})
+				}
+				if local == 0 || allStart {
+					return true
+				}
 			}
 		}
 		if id, ok := x.(*ast.Ident); ok {
